@@ -111,6 +111,14 @@ def check(case):
         sc = (abs(a) * np.maximum(np.abs(L), np.abs(R)) if name == "convection" else np.maximum(L * L, R * R)) + 1e-300
         worst = max(worst, _cmp(num(L, L), phys(L), (abs(a) * np.abs(L) if name == "convection" else L * L) + 1e-300, tol, "consistency", "F(W,W) vs f(W)"))
         F = num(L, R)
+        # a flux is a function of its two states only: the same call repeated after the model served OTHER pairs (same number of faces: permuted, at rest,
+        # exactly antisymmetric) returns the same bits
+        num(R[::-1].copy(), L[::-1].copy())
+        num(np.zeros_like(L), np.zeros_like(R))
+        num(np.abs(L) + 1.0, np.abs(L) + 1.0)
+        Fh = num(L, R)
+        require(np.array_equal(Fh, F, equal_nan=True), "numflux-history", "%s: the flux of the same pairs differs after the model evaluated other pairs (max difference %.3g)"
+                % (name, float(np.nanmax(np.abs(Fh - F)))))
         if name == "convection":
             mm = cases.build_model(dict(md, a=-a))
             Fm = np.asarray(mm.numflux(flux, [-R * 0 + R], [L.copy()])[0], dtype=float)   # scalar is even: states keep their value, speed negated
